@@ -97,7 +97,7 @@ var lineRe = regexp.MustCompile(`^\[(info|trace|warn|error)\] \d{4}/\d\d/\d\d \d
 func msgOf(seed, n int64) string {
 	b := kernel.Fill(int(n), uint64(seed))
 	for i := range b {
-		b[i] = "abcdefghijklmnopqrstuvwxyz0123456789 _-:[]"[int(b[i])%42]
+		b[i] = "abcdefghijklmnopqrstuvwxyz0123456789 _-:[]%"[int(b[i])%43]
 	}
 	return "m" + string(b) + "."
 }
@@ -228,15 +228,19 @@ func run(p *kernel.Plan) (res *kernel.Result) {
 							logger.E(ctx, lr.msg)
 						}
 					} else {
+						// Printf-style: the message is an argument and the format
+						// itself carries an escaped percent sign
+						lr.msg = msgs[i] + " 7%"
+						logs[t][len(logs[t])-1] = lr
 						switch lr.level {
 						case 0:
-							logger.If(ctx, "%s", lr.msg)
+							logger.If(ctx, "%s %d%%", msgs[i], 7)
 						case 1:
-							logger.Tf(ctx, "%s", lr.msg)
+							logger.Tf(ctx, "%s %d%%", msgs[i], 7)
 						case 2:
-							logger.Wf(ctx, "%s", lr.msg)
+							logger.Wf(ctx, "%s %d%%", msgs[i], 7)
 						default:
-							logger.Ef(ctx, "%s", lr.msg)
+							logger.Ef(ctx, "%s %d%%", msgs[i], 7)
 						}
 					}
 				}
